@@ -201,8 +201,126 @@ def run(res, replay=None):
                                     best = rr
                     if best is not None and r > best * (1 + 1e-7) + 1e-9:
                         res.violation("C20:welzl-not-minimal", f"Welzl returns radius {r} but a sphere of radius {best} through <= 4 of the points contains all {len(pts)} points", ctx)
+    # ---- correspondence with the Coq search model (Model/Knn.v, extracted): the grid is replicated with the same IEEE operations,
+    # the rings/cells/bounds of sampled query particles are handed to knn_search; its distance sequence must equal the implementation's.
+    # The theorem's hypothesis rings_wf is decided exactly per query (it can fail by rounding of cell corners: such queries are counted, not compared).
+    mf = os.path.join(wd, "c20.model.cases")
+    qs = []
+    with open(mf, "w") as f:
+        for i, c in enumerate(cases):
+            o = impl.get(i)
+            if c["kind"] != "knn" or o is None or "panic" in o or c["k"] == 0:
+                continue
+            n = len(c["pts"])
+            for a in sorted({0, n // 2, n - 1, (7 * i) % n}):
+                rings = knn_rings(c, a)
+                if not rings_wf(rings):
+                    res.count("knn-model:bounds-not-admissible-by-rounding")
+                    continue
+                toks = ["knn", str(c["k"]), str(len(rings))]
+                for rb, groups in rings:
+                    toks += [str(rb), str(len(groups))]
+                    for lb, members in groups:
+                        toks += [str(lb), str(len(members))]
+                        for key, j in members:
+                            toks += [str(key), str(j)]
+                f.write(" ".join(toks) + "\n")
+                qs.append((i, a, rings))
+    if qs:
+        rcm, outm, _ = C.sh([C.build_runner(), mf], timeout=3000)
+        model = {}
+        for ln in outm.splitlines():
+            sp = ln.split(" ", 1)
+            if len(sp) == 2 and sp[0].isdigit():
+                model[int(sp[0])] = json.loads(sp[1])
+        for qi, (i, a, rings) in enumerate(qs):
+            c = cases[i]
+            res.count("knn-model:query")
+            mo = model.get(qi)
+            if mo is None:
+                res.violation("corr:knn-model-no-output", f"the extracted search model produced no output for case {i} particle {a}", {"case": c}, no_input=True)
+                continue
+            keyof = {j: key for _, groups in rings for _, members in groups for key, j in members}
+            got = impl[i]["nn"][a]
+            gk = [keyof.get(j) for j in got]
+            mk = [int(ky) for ky, _ in mo]
+            if gk != mk:
+                res.violation("corr:knn-model-differs", f"case {i} particle {a} (k={c['k']}): distance sequence of the implementation differs from the Coq search model's "
+                              f"(first difference at rank {next((t for t in range(min(len(gk), len(mk))) if gk[t] != mk[t]), min(len(gk), len(mk)))})", {"case": c}, no_input=True)
+                break
+            allk = sorted(keyof.values())
+            if mk != allk[:c["k"]]:
+                res.violation("corr:knn-model-not-brute-force", "the extracted model contradicts its own theorem (k smallest keys): extraction or driver defect", {"case": c}, no_input=True)
+                break
     if cases:
         res.sample({k_: v for k_, v in cases[0].items() if k_ != "pts"})
+
+
+def knn_rings(c, a):
+    """the grid of Space::new / add_parts replicated with the same IEEE operations (Python floats), and for query particle a the
+    rings of cells in get_r_ring's order, each cell with the exact lower bound of closest_loc and its particles; all squared
+    distances exact, scaled to integers by a common power of two.  Returns (rings, keys) with rings = [(rb_int, [(lb_int, [(key, id)])])]"""
+    anchor, width, mcw, pts = c["anchor"], c["width"], c["mcw"], c["pts"]
+    cdim = [int(math.ceil(width[t] / mcw)) for t in range(3)]
+    cw = [width[t] / float(cdim[t]) for t in range(3)]
+
+    def cell_of(p):
+        return tuple(int(math.floor((p[t] - anchor[t]) / width[t] * float(cdim[t]))) for t in range(3))
+    cells = {}
+    for j, p in enumerate(pts):
+        cells.setdefault(cell_of(p), []).append(j)
+    x = pts[a]
+    ci = cell_of(x)
+    loc = [anchor[t] + float(ci[t]) * cw[t] for t in range(3)]
+    dtf = min(min(x[t] - loc[t], loc[t] + cw[t] - x[t]) for t in range(3))
+    wmin = min(cw)
+    floats = [v for p in pts for v in p]
+    rings_f = []
+    r = 0
+    while True:
+        ring = []
+        any_cell = False
+        rng_ = range(-r, r + 1)
+        for di in rng_:
+            for dj in rng_:
+                for dk in rng_:
+                    if max(abs(di), abs(dj), abs(dk)) < r:
+                        continue
+                    cj = (ci[0] + di, ci[1] + dj, ci[2] + dk)
+                    if any(cj[t] < 0 or cj[t] >= cdim[t] for t in range(3)):
+                        continue
+                    any_cell = True
+                    cl = [anchor[t] + float(cj[t]) * cw[t] for t in range(3)]
+                    close = [min(x[t], cl[t] + cw[t]) if x[t] > cl[t] else cl[t] for t in range(3)]
+                    floats += close
+                    ring.append((close, [j for j in cells.get(cj, []) if j != a]))
+        if not any_cell:
+            break
+        rb = dtf + float(r) * wmin
+        floats.append(rb)
+        rings_f.append((rb, ring))
+        r += 1
+    D = max(fr(v).denominator for v in floats)
+    X = [fr(v) * D for v in x]
+
+    def k2(q):
+        return int(sum((fr(q[t]) * D - X[t]) ** 2 for t in range(3)))
+    rings = [(int(fr(rb) * D), [(k2(close), [(k2(pts[j]), j) for j in members]) for close, members in ring]) for rb, ring in rings_f]
+    return rings
+
+
+def rings_wf(rings):
+    """the hypothesis of C20_knn_search_is_k_nearest, decided exactly on the concrete data"""
+    later = []
+    ok = True
+    for rb, groups in reversed(rings):
+        if any(key < rb * rb for key in later):
+            ok = False
+        for lb, members in groups:
+            if any(key < lb for key, _ in members):
+                ok = False
+            later += [key for key, _ in members]
+    return ok
 
 
 def sphere_through(ps):
